@@ -7,6 +7,8 @@ import "github.com/Trendyol/go-dcp/models"
 
 func init() {
 	vHarnesses["C01_hist"] = H_C01_hist
+	vHarnesses["C01_hist3"] = H_C01_hist3
+	vHarnesses["C01_hist5"] = H_C01_hist5
 }
 
 // H_C01_hist: K steps of {deliver+ack now, deliver+withhold, ack a withheld
@@ -26,6 +28,7 @@ func H_C01_hist() {
 func H_C01_hist5() {
 	vNVcur = 2
 	vC01NoCommit = true
+	vFewKinds = true
 	vC01Hist(5)
 }
 
@@ -34,6 +37,7 @@ var vC01NoCommit bool
 // H_C01_hist3: the same histories over three vBuckets (K=4).
 func H_C01_hist3() {
 	vNVcur = 3
+	vFewKinds = true
 	vC01Hist(4)
 }
 
